@@ -21,8 +21,12 @@ RULE = ("pairs of quantities of the default POSC database (identical; one quanti
         "psig ...) at exponent 1 and != 1 against other units of the type; simple offset-unit operands; the empty quantity) x 3x3 container kinds x "
         "{+,-,*,/,//} x lengths 0..6, plus pairs of different lengths (0/1/n against m), int and float elements, zero "
         "divisors in float slots; Scalar op Scalar on the same pairs; Array.FromScalars (same unit, mixed units, foreign "
-        "types, empty) followed by indexing every position; Array.GetValues / Scalar.GetValue to every kind of target "
-        "unit.  distinct = distinct (operation, operands); non-trivial = the real code returned a result")
+        "types, empty) followed by indexing every position; Array.FromScalars with every keyword form (unit and / or category "
+        "given: of the type, of another type, unknown, empty string, a category name in the unit slot; list / tuple / generator "
+        "of Scalars; no Scalar at all) over Scalars of simple, derived (unit string naming a table unit or not, one item with an "
+        "exponent) and empty quantities; Array.GetValues / Scalar.GetValue to every kind of target unit; GetValues of Arrays "
+        "over lists / tuples of tuples (ragged and empty rows); str(Array) over tuples and numbers.  "
+        "distinct = distinct (operation, operands); non-trivial = the real code returned a result")
 EXHAUSTIVE = {"quick": False, "thorough": False}
 ASSUMPTIONS = [
     "float results stay within 4*K*eps*M of the exact model (K=64): checked, not proved",
@@ -30,7 +34,13 @@ ASSUMPTIONS = [
     "a quotient that is an integer up to float rounding may floor to either neighbour (don't care)",
     "the quantity algebra of two derived operands (unit matching) is engine Alg's subject (C03/C04); the C10 theorems "
     "hold for ANY quantity operation because Scalar and Array call the same database function",
-    "FromScalars / GetValues are modelled for simple (not derived) quantities",
+    "GetValues is modelled for simple (not derived) quantities; FromScalars for Scalars of simple, derived and empty "
+    "quantities (unit and category strings of a derived quantity through engine Str's renderers); legacy unit spellings are "
+    "modelled (`obtainSimple`) but not generated as keyword arguments",
+    "str(Array): the texts of the single elements (`str(v)`, `FormatFloat('%g', v)`) are computed by Python and handed to the "
+    "model, which decides the branch (first element a tuple), joins and appends the unit suffix",
+    "value-less list / tuple operands whose division is computed on dummy amounts that cancel to 0 (1 atm = 0 Pa(g)) are kept "
+    "out of the generators until the known-finding entry exists (CLASS_PROBE; matcher and replay are in this module)",
 ]
 
 
@@ -80,6 +90,8 @@ def _pairs(ctx, rng, n):
             q2 = oc.other_units(ctx, rng, q1)
         out.append((q1, q2))
     out += [([], []), (oc.simple_q(ctx, rng), []), ([], oc.simple_q(ctx, rng))]  # the empty quantity
+    # 1.0 of the divisor's unit is 0 of the dividend's unit: only value-less list / tuple operands may still fail
+    out += [([["pressure", "Pa(g)", 1]], [["pressure", "atm", 1]]), ([["pressure", "Pa(g)", 1]], [["force per area", "atm", 1]])]
     return [(a, b) for a, b in out if oc.buildable(oc.scalar_spec(a, 1.0)) and oc.buildable(oc.scalar_spec(b, 1.0))]
 
 
@@ -87,6 +99,25 @@ def _vals(rng, n, f, divisor):
     ints = rng.random() < 0.2
     nonzero = ints or (divisor and f in ("div", "floordiv") and rng.random() < 0.97)
     return oc.rand_values(rng, n, nonzero, ints), ints
+
+
+CLASS_PROBE = ("value-less list/tuple Arrays divided: the dummy amount 1.0 of the divisor's unit is 0 of the unit it "
+               "is matched to")
+
+
+def _probe_zero(ctx, q1, q2):
+    """the input class of the candidate known finding: both quantities simple and of one quantity type, in
+    different units, and the amount 1.0 of the divisor's unit is exactly 0 of the dividend's unit (1 atm = 0 Pa(g)):
+    `Array._DoOperation` computes the quantity of value-less list / tuple operands on the dummy amounts (1.0, 1.0)"""
+    if len(q1) != 1 or len(q2) != 1 or int(q1[0][2]) != 1 or int(q2[0][2]) != 1 or q1[0][1] == q2[0][1]:
+        return False
+    try:
+        qt = ctx.db.GetCategoryQuantityType(q1[0][0])
+        if ctx.db.GetCategoryQuantityType(q2[0][0]) != qt:
+            return False
+        return float(ctx.db.Convert(qt, q2[0][1], q1[0][1], 1.0)) == 0.0
+    except Exception:
+        return False
 
 
 def _gen_binops(ctx, rng, npairs, lengths, n_mismatch):
@@ -98,6 +129,12 @@ def _gen_binops(ctx, rng, npairs, lengths, n_mismatch):
             for k1 in oc.KINDS:
                 for k2 in oc.KINDS:
                     for n in lengths:
+                        if n == 0 and f in ("div", "floordiv") and "nd" not in (k1, k2) and _probe_zero(ctx, q1, q2):
+                            # kept out until the known-finding entry exists (reported, CLASS_PROBE): value-less list /
+                            # tuple Arrays are computed on the dummy amounts (1.0, 1.0), and 1.0 of the divisor's unit
+                            # can be 0 of the matched unit (1 atm = 0 Pa(g)): ZeroDivisionError although every Scalar
+                            # quotient has a quantity.  (With values the amounts are no longer used: repair 4829052.)
+                            continue
                         xs, i1 = _vals(rng, n, f, False)
                         ys, i2 = _vals(rng, n, f, True)
                         yield oc.binop_case(f, oc.array_spec(q1, k1, xs, i1), oc.array_spec(q2, k2, ys, i2))
@@ -151,11 +188,182 @@ def _gen_getvalues(ctx, rng, n):
                        _t=dict(c=c, u=u, x=float(vs[0]).hex(), to=to))
 
 
+# ---- Array.FromScalars(scalars, unit=..., category=...): every argument form, simple / derived / empty quantities
+_FS_UNITS = {"length": ["m", "cm", "km", "ft", "in"], "time": ["s", "min", "h", "d"], "mass": ["kg", "g", "lbm"],
+             "volume": ["m3", "L", "ft3"], "area": ["m2", "ft2"]}
+_FS_SHAPES = [((1,), ), ((2,), ), ((3,), ), ((1, -1), ), ((1, 1), ), ((1, -2), ), ((1, -3), )]
+
+
+def _named_derived(ctx):
+    """derived quantities (dicts over favourite categories) whose unit string, as the library renders it, is the
+    name of a table unit of a quantity type that has categories: [(q, unit string, [categories...])]"""
+    if getattr(ctx, "_named_derived", None) is not None:
+        return ctx._named_derived
+    from barril.units import ObtainQuantity
+    from collections import OrderedDict
+
+    db, out = ctx.db, []
+    cats = [c for c in sorted(_FS_UNITS) if c in db.categories_to_quantity_types]
+    for (exps,) in _FS_SHAPES:
+        for c1 in cats:
+            for c2 in (cats if len(exps) == 2 else [None]):
+                if c2 == c1:
+                    continue
+                for u1 in _FS_UNITS[c1]:
+                    for u2 in (_FS_UNITS[c2] if c2 else [None]):
+                        q = [[c1, u1, exps[0]]] + ([[c2, u2, exps[1]]] if c2 else [])
+                        try:
+                            us = ObtainQuantity(OrderedDict((c, [u, e]) for c, u, e in q)).GetUnit()
+                            info = db.unit_to_unit_info.get(us)
+                        except Exception:
+                            continue
+                        if info is None:
+                            continue
+                        cs = sorted(c for c, ci in db.categories_to_quantity_types.items() if ci.quantity_type == info.quantity_type)
+                        if cs:
+                            out.append((q, us, cs))
+    ctx._named_derived = out
+    return out
+
+
+def _fs2_case(ss, unit, category, it="list"):
+    enc = [dict(q=[[str(sym(c)), str(sym(u)), str(int(e))] for c, u, e in s_["q"]], v=qstr(oc.exact_of(s_["x"]))) for s_ in ss]
+    return dict(op="fromscalars2", ss=enc, unit=None if unit is None else str(sym(unit)),
+                category=None if category is None else str(sym(category)), _t=dict(ss=ss, unit=unit, category=category, it=it))
+
+
+def _qs(q, v):
+    return dict(q=q, x=float(v).hex())
+
+
+def _gen_fromscalars2(ctx, rng, n):
+    db = ctx.db
+    all_cats = sorted(db.categories_to_quantity_types)
+    bad_units, bad_cats = ["no such unit", "", "m.cm"], ["no such category", ""]
+    # no Scalar at all: the four keyword combinations
+    # ("length", "volume per time": category names in the unit slot - no default category, but GetCategoryInfo finds them)
+    for unit in [None, "", "m", "no such unit", "degC", "m3/d", "length", "volume per time"] + [oc.simple_q(ctx, rng)[0][1] for _ in range(12)]:
+        for category in [None, "length", "", "no such category", oc.simple_q(ctx, rng)[0][0]]:
+            yield _fs2_case([], unit, category, rng.choice(["list", "tuple", "gen"]))
+    named = _named_derived(ctx)
+    for i in range(n):
+        r = i % 10
+        it = rng.choice(["list", "list", "tuple", "gen"])
+        if r < 6:
+            # Scalars of simple quantities
+            c, u, _ = oc.simple_q(ctx, rng)[0]
+            qt = db.GetCategoryQuantityType(c)
+            ss = [_qs([[c, u, 1]], oc.rand_value(rng))]
+            for _j in range(rng.choice([0, 1, 2, 3, 5])):
+                w = rng.random()
+                if w < 0.3:
+                    ss.append(_qs([[c, u, 1]], oc.rand_value(rng)))
+                elif w < 0.9:
+                    ss.append(_qs([[rng.choice(ctx.cats[qt]), rng.choice(ctx.units[qt]), 1]], oc.rand_value(rng)))
+                elif w < 0.95:
+                    ss.append(_qs(oc.simple_q(ctx, rng), oc.rand_value(rng)))
+                else:
+                    ss.append(_qs([], oc.rand_value(rng)))   # a Scalar of the empty quantity
+            w = rng.random()
+            unit = None if w < 0.3 else rng.choice(ctx.units[qt]) if w < 0.85 else u if w < 0.9 else rng.choice(
+                bad_units + [oc.simple_q(ctx, rng)[0][1]])
+            w = rng.random()
+            category = None if w < 0.4 else rng.choice(ctx.cats[qt]) if w < 0.85 else rng.choice(
+                bad_cats + [rng.choice(all_cats)])
+            yield _fs2_case(ss, unit, category, it)
+        elif r < 8 and named:
+            # Scalars of derived quantities whose unit string names a table unit: accepted with that unit
+            # (or no unit) and a category of that unit's quantity type
+            q, us, cs = rng.choice(named)
+            ss = [_qs(q, oc.rand_value(rng))]
+            qt2 = db.GetCategoryQuantityType(cs[0])
+            for _j in range(rng.choice([0, 1, 2])):
+                w = rng.random()
+                if w < 0.4:
+                    ss.append(_qs(q, oc.rand_value(rng)))
+                elif w < 0.6:
+                    q2, us2, _cs2 = rng.choice(named)
+                    ss.append(_qs(q2, oc.rand_value(rng)))
+                else:
+                    ss.append(_qs([[rng.choice(cs), rng.choice([us, us, rng.choice(ctx.units[qt2])]), 1]], oc.rand_value(rng)))
+            if rng.random() < 0.3:
+                ss.reverse()
+            w = rng.random()
+            unit = None if w < 0.4 else us if w < 0.8 else rng.choice(ctx.units[qt2] + bad_units)
+            w = rng.random()
+            category = rng.choice(cs) if w < 0.8 else None if w < 0.9 else rng.choice(bad_cats + all_cats[:40])
+            yield _fs2_case(ss, unit, category, it)
+        else:
+            # any derived / empty quantity
+            q = rng.choice([oc.derived_q(ctx, rng), oc.derived_q(ctx, rng, "normal"), [], [[oc.simple_q(ctx, rng)[0][0], oc.simple_q(ctx, rng)[0][1], 2]]])
+            if q and not oc.buildable(oc.scalar_spec(q, 1.0)):
+                q = []
+            ss = [_qs(q, oc.rand_value(rng))]
+            for _j in range(rng.choice([0, 1, 2])):
+                ss.append(_qs(rng.choice([q, q, oc.simple_q(ctx, rng), []]), oc.rand_value(rng)))
+            if rng.random() < 0.3:
+                ss.reverse()
+            w = rng.random()
+            unit = None if w < 0.5 else rng.choice(bad_units + [oc.simple_q(ctx, rng)[0][1], "m", "m2"])
+            w = rng.random()
+            category = None if w < 0.5 else rng.choice(bad_cats + [rng.choice(all_cats), "length", "area"])
+            yield _fs2_case(ss, unit, category, it)
+
+
+# ---- Array over a list / tuple of tuples: GetValues(unit); Array.__str__
+def _gen_rows(ctx, rng, n):
+    for i in range(n):
+        c, u, _ = oc.simple_q(ctx, rng)[0]
+        qt = ctx.db.GetCategoryQuantityType(c)
+        r = rng.random()
+        to = u if r < 0.1 else rng.choice(ctx.units[qt]) if r < 0.9 else rng.choice(["no such unit", oc.simple_q(ctx, rng)[0][1]])
+        width = rng.choice([0, 1, 2, 3])
+        rows = [oc.rand_values(rng, width if rng.random() < 0.8 else rng.choice([0, 1, 2])) for _ in range(rng.choice([1, 2, 3]))]
+        outer = rng.choice(["list", "tuple"])
+        yield dict(op="getvaluesrows", c=str(sym(c)), u=str(sym(u)), to=str(sym(to)),
+                   rows=[[qstr(oc.exact(v)) for v in row] for row in rows],
+                   _t=dict(c=c, u=u, to=to, outer=outer, rows=[[float(v).hex() for v in row] for row in rows]))
+
+
+def _elem_text(v):
+    from barril.basic.format_float import FormatFloat
+
+    if isinstance(v, tuple):
+        return dict(tup=True, s=str(v), g="")
+    return dict(tup=False, s=str(v), g=FormatFloat("%g", v))
+
+
+def _str_values(t):
+    vs = [tuple(oc.val(x) for x in e) if isinstance(e, list) else oc.val(e) for e in t["elems"]]
+    return tuple(vs) if t["outer"] == "tuple" else vs
+
+
+def _gen_str(ctx, rng, n):
+    """`str(Array)`: values that are tuples (list / tuple of tuples: `str(v)` of every element) or numbers
+    (`FormatFloat("%g", v)`), followed by the unit suffix; simple, derived and empty quantities"""
+    for i in range(n):
+        q = rng.choice([oc.simple_q(ctx, rng), oc.simple_q(ctx, rng), oc.derived_q(ctx, rng, "normal"), oc.derived_q(ctx, rng), []])
+        if q and not oc.buildable(oc.scalar_spec(q, 1.0)):
+            q = []
+        num = lambda: oc.enc(rng.choice([rng.randint(-9, 99), oc.rand_value(rng), round(rng.uniform(-50, 50), 2)]))
+        if i % 3 == 2:
+            elems = [num() for _ in range(rng.choice([0, 1, 2, 4]))]
+        else:
+            elems = [[num() for _ in range(rng.choice([0, 1, 2, 2, 3]))] for _ in range(rng.choice([1, 2, 3]))]
+        t = dict(q=q, outer=rng.choice(["list", "tuple"]), elems=elems)
+        yield dict(op="str", q=[[str(sym(c)), str(sym(u)), str(int(e))] for c, u, e in q],
+                   elems=[_elem_text(v) for v in _str_values(t)], _t=t)
+
+
 def _gen(ctx, salt, npairs, lengths, n_mismatch, n_fs, n_gv):
     rng = ctx.fresh_rng("C10" + salt)
     yield from _gen_binops(ctx, rng, npairs, lengths, n_mismatch)
     yield from _gen_fromscalars(ctx, rng, n_fs)
     yield from _gen_getvalues(ctx, rng, n_gv)
+    rng2 = ctx.fresh_rng("C10ext" + salt)
+    yield from _gen_fromscalars2(ctx, rng2, 3 * n_fs)
+    yield from _gen_rows(ctx, rng2, n_gv // 2)
+    yield from _gen_str(ctx, rng2, n_gv // 2)
 
 
 def cases(ctx):
@@ -227,10 +435,94 @@ def _run_getvalue(t):
     return dict(ok=dict(vs=[float(r).hex()]))
 
 
+def _fs2_build(t):
+    from barril.units import Scalar
+
+    ss = [Scalar.CreateWithQuantity(oc.quantity(s_["q"]), value=oc.val(s_["x"])) for s_ in t["ss"]]
+    it = tuple(ss) if t["it"] == "tuple" else (s_ for s_ in ss) if t["it"] == "gen" else ss
+    kw = {}
+    if t["unit"] is not None:
+        kw["unit"] = t["unit"]
+    if t["category"] is not None:
+        kw["category"] = t["category"]
+    return ss, it, kw
+
+
+def _run_fromscalars2(t):
+    from barril.units import Array
+
+    try:
+        ss, it, kw = _fs2_build(t)
+    except Exception as e:
+        return dict(err="other", detail="operand does not build: %r" % (e,))
+    try:
+        a = Array.FromScalars(it, **kw)
+    except Exception as e:
+        return dict(err=err_kind(e), exc=type(e).__name__)
+    res = oc.canon(a)
+    idx = []
+    for i in range(len(ss) + 1):
+        try:
+            idx.append(float(a[i]).hex())
+        except Exception as e:
+            idx.append(dict(err=err_kind(e)))
+    return dict(res=res, index=idx)
+
+
+def _rows_array(t):
+    from barril.units import Array
+
+    rows = [tuple(oc.val(x) for x in row) for row in t["rows"]]
+    return Array(tuple(rows) if t["outer"] == "tuple" else rows, t["u"], t["c"])
+
+
+def _run_getvaluesrows(t):
+    try:
+        a = _rows_array(t)
+    except Exception as e:
+        return dict(err="other", detail="operand does not build: %r" % (e,))
+    try:
+        r = a.GetValues(t["to"])
+    except Exception as e:
+        return dict(err=err_kind(e))
+    outer = "tuple" if isinstance(r, tuple) else "list" if isinstance(r, list) else "?"
+    if not all(isinstance(row, tuple) for row in r):
+        return dict(err="other", detail="a row is not a tuple")
+    if not all(math.isfinite(float(v)) for row in r for v in row):
+        return dict(err="other", detail="nonfinite")
+    return dict(ok=dict(outer=outer, rows=[[float(v).hex() for v in row] for row in r]))
+
+
+def _run_str(t):
+    from barril.units import Array
+
+    try:
+        a = Array.CreateWithQuantity(oc.quantity(t["q"]), values=_str_values(t))
+    except Exception as e:
+        return dict(err="other", detail="operand does not build: %r" % (e,))
+    try:
+        return dict(ok=dict(text=list(str(a).encode("utf8"))))
+    except Exception as e:
+        return dict(err=err_kind(e))
+
+
 def impl(c, ctx):
     t = c["_t"]
     if c["op"] == "binop":
         io = oc.run_binop(t["f"], t["a"], t["b"])
+    elif c["op"] == "fromscalars2":
+        io = _run_fromscalars2(t)
+        if "res" in io and "err" in io["res"]:
+            io = io["res"]
+        oc.count(ctx, "fromscalars2 %s unit=%s category=%s -> %s" % (
+            "no scalar" if not t["ss"] else "simple" if all(len(s_["q"]) == 1 and int(s_["q"][0][2]) == 1 for s_ in t["ss"]) else "derived/empty",
+            "given" if t["unit"] is not None else "-", "given" if t["category"] is not None else "-",
+            io.get("err", "ok")))
+        return io
+    elif c["op"] == "getvaluesrows":
+        io = _run_getvaluesrows(t)
+    elif c["op"] == "str":
+        io = _run_str(t)
     elif c["op"] == "fromscalars":
         io = _run_fromscalars(t)
         if "res" in io and "err" in io["res"]:
@@ -246,7 +538,31 @@ def impl(c, ctx):
 def agree(c, io, mo, ctx):
     if c["op"] == "binop":
         return oc.agree_binop(c, io, mo)
-    if c["op"] == "fromscalars":
+    if c["op"] == "str":
+        if "err" in io:
+            return "str(Array) raised: %s" % io
+        return None if io["ok"]["text"] == mo["ok"]["text"] else "texts differ: impl=%r model=%r" % (
+            bytes(io["ok"]["text"]).decode("utf8", "replace"), bytes(mo["ok"]["text"]).decode("utf8", "replace"))
+    if c["op"] == "getvaluesrows":
+        if "err" in io or "err" in mo:
+            if ("err" in io) != ("err" in mo):
+                return "one side fails: impl=%s model=%s" % (io, mo)
+            return None if io["err"] == mo["err"] else "error kinds differ: impl=%s model=%s" % (io, mo)
+        a, b = io["ok"], mo["ok"]
+        if a["outer"] != c["_t"]["outer"]:
+            return "the container of the rows changed: %s -> %s" % (c["_t"]["outer"], a["outer"])
+        if len(a["rows"]) != len(b["rows"]):
+            return "numbers of rows differ"
+        for i, (ra, rb) in enumerate(zip(a["rows"], b["rows"])):
+            if c["u"] == c["to"]:
+                if [qstr(oc.exact_of(x)) for x in ra] != rb:
+                    return "row %d: same-unit values are not returned unchanged" % i
+                continue
+            why = oc.compare_values(ra, rb, qparse(b["M"]), False)
+            if why:
+                return "row %d: %s" % (i, why)
+        return None
+    if c["op"] in ("fromscalars", "fromscalars2"):
         mres = mo.get("res", mo)
         if "err" in io or "err" in mres:
             if ("err" in io) != ("err" in mres):
@@ -380,6 +696,21 @@ def _oracle_binop(t, ctx):
         except Exception as e:
             scal_err, err_pair = e, (x, y)
             break
+    if scal_err is not None and not xs and isinstance(scal_err, ARITH) and f in ("div", "floordiv") and "nd" not in (a["kind"], b["kind"]):
+        # no values: the quantity of the Scalar quotient is the one of ANY amounts; when the dummy amounts (1.0, 1.0)
+        # divide by zero only because 1.0 of the divisor's unit is 0 of the matched unit, other amounts show it
+        try:
+            other = _apply(f, Scalar.CreateWithQuantity(qa, value=2.0), Scalar.CreateWithQuantity(qb, value=3.0))
+        except Exception:
+            other = None
+        if other is not None:
+            if raised is not None:
+                return {"clause": "the result's quantity equals the Scalar result's quantity (value-less operands)", "form": form,
+                        "raised": repr(raised), "scalar_quantity": oc.entries(other.GetQuantity()), "class": CLASS_PROBE}
+            if r.GetQuantity() != other.GetQuantity():
+                return dict(clause="the result's quantity equals the Scalar result's quantity", form=form,
+                            got=oc.entries(r.GetQuantity()), want=oc.entries(other.GetQuantity()))
+            return None
     if scal_err is not None:
         if isinstance(scal_err, ARITH):
             # legitimate only for a zero divisor / magnitudes that leave the float range (exact, from the table slopes)
@@ -496,8 +827,109 @@ def _oracle_getvalues(t, ctx):
     return None
 
 
+def _oracle_fromscalars2(t, ctx):
+    """FromScalars followed by indexing returns the original amounts, re-expressed in the Array's unit.  Success is
+    demanded where the arguments leave no doubt: Scalars of simple quantities of one quantity type, `unit` (if
+    given) a unit of that type, `category` (if given) a category of that type.  Whenever an Array comes back,
+    every position is judged: a Scalar of a simple quantity against its own conversion; a Scalar of a derived
+    quantity is accepted only under its own unit string, so its amount must come back unchanged.  (Scalars of the
+    empty quantity carry a bare number: nothing is demanded of them.)"""
+    from barril.units import Array, Scalar
+
+    try:
+        ss, it, kw = _fs2_build(t)
+    except Exception:
+        return None
+    form = "Array.FromScalars(%s of [%s]%s)" % (t["it"], ", ".join(oc.render(oc.scalar_spec(s_["q"], oc.val(s_["x"]))) for s_ in t["ss"]),
+                                                "".join(", %s=%r" % kv for kv in sorted(kw.items())))
+    simple = [len(s_["q"]) == 1 and int(s_["q"][0][2]) == 1 for s_ in t["ss"]]
+    must = bool(ss) and all(simple) and len({s_.GetQuantityType() for s_ in ss}) == 1
+    if must:
+        qt = ss[0].GetQuantityType()
+        if "unit" in kw and kw["unit"] and kw["unit"] not in ctx.units.get(qt, []):
+            must = False
+        if "category" in kw and kw["category"]:
+            try:
+                must = must and ctx.db.GetCategoryQuantityType(kw["category"]) == qt
+            except Exception:
+                must = False
+    try:
+        a = Array.FromScalars(it, **kw)
+    except Exception as e:
+        if must:
+            return dict(clause="FromScalars of Scalars of one quantity type (unit / category of that type)", form=form, raised=repr(e))
+        return None
+    if not ss:
+        if len(a) != 0:
+            return dict(clause="FromScalars of no Scalar is an empty Array", form=form, got=len(a))
+        if "unit" in kw and kw["unit"] and a.GetUnit() != kw["unit"]:
+            return dict(clause="FromScalars keeps the unit asked for", form=form, got=a.GetUnit())
+        return None
+    if len(a) != len(ss):
+        return dict(clause="FromScalars keeps every Scalar", form=form, got=len(a), want=len(ss))
+    if "unit" in kw and kw["unit"] and a.GetUnit() != kw["unit"]:
+        return dict(clause="FromScalars keeps the unit asked for", form=form, got=a.GetUnit())
+    if "category" in kw and kw["category"] and a.GetCategory() != kw["category"]:
+        return dict(clause="FromScalars keeps the category asked for", form=form, got=a.GetCategory())
+    for i, (s_, smp) in enumerate(zip(ss, simple)):
+        if not t["ss"][i]["q"]:
+            continue
+        got = float(a[i])
+        if s_.GetUnit() == a.GetUnit():
+            if got != s_.value and not (math.isnan(got) and math.isnan(s_.value)):
+                return dict(clause="FromScalars then indexing returns the original amounts", form=form, index=i, got=got,
+                            want=s_.value, unit=a.GetUnit())
+            continue
+        if not smp:
+            return dict(clause="FromScalars then indexing returns the original amounts", form=form, index=i, got=got,
+                        note="a Scalar of a derived quantity in %r was taken into an Array in %r" % (s_.GetUnit(), a.GetUnit()))
+        try:
+            want = s_.GetValue(a.GetUnit())
+            back = Scalar(got, a.GetUnit(), a.GetCategory()).GetValue(s_.GetUnit())
+        except Exception as e:
+            return dict(clause="FromScalars then indexing returns the original amounts", form=form, index=i, raised=repr(e))
+        if not (math.isfinite(back) and math.isfinite(want)):
+            continue
+        if abs(got - want) > _tol(got, want) and abs(back - s_.value) > _tol(back, s_.value):
+            return dict(clause="FromScalars then indexing returns the original amounts", form=form, index=i,
+                        got=got, unit=a.GetUnit(), want=want)
+    return None
+
+
+def _oracle_getvaluesrows(t, ctx):
+    from barril.units import Scalar
+
+    rows = [[oc.val(x) for x in row] for row in t["rows"]]
+    form = "Array(%s of tuples %r, %r, %r).GetValues(%r)" % (t["outer"], rows, t["u"], t["c"], t["to"])
+    try:
+        want = [[Scalar(v, t["u"], t["c"]).GetValue(t["to"]) for v in row] for row in rows]
+    except Exception:
+        return None
+    try:
+        got = _rows_array(t).GetValues(t["to"])
+    except Exception as e:
+        if not any(rows):
+            return None
+        return dict(clause="unit conversion of an Array equals the conversion of the Scalars", form=form, raised=repr(e))
+    if len(got) != len(want) or any(len(g) != len(w) for g, w in zip(got, want)):
+        return dict(clause="unit conversion keeps the length", form=form, got=[len(g) for g in got], want=[len(w) for w in want])
+    for i, (gr, wr) in enumerate(zip(got, want)):
+        for j, (g, w) in enumerate(zip(gr, wr)):
+            g, w = float(g), float(w)
+            if math.isfinite(g) and math.isfinite(w) and abs(g - w) > _tol(g, w, rows[i][j]):
+                return dict(clause="unit conversion of an Array equals the conversion of the Scalars", form=form,
+                            index=[i, j], got=g, want=w)
+    return None
+
+
 def oracle(c, ctx):
     t = c["_t"]
+    if c["op"] == "fromscalars2":
+        return _oracle_fromscalars2(t, ctx)
+    if c["op"] == "getvaluesrows":
+        return _oracle_getvaluesrows(t, ctx)
+    if c["op"] == "str":
+        return None
     if c["op"] == "binop":
         return _oracle_binop(t, ctx)
     if c["op"] == "fromscalars":
@@ -505,6 +937,44 @@ def oracle(c, ctx):
     if c["op"] == "getvalues":
         return _oracle_getvalues(t, ctx)
     return None
+
+
+def matches_known(entry, case, failure):
+    """Only the recorded input class: `Array / Array` or `Array // Array`, both over a list or a tuple (no ndarray),
+    both WITHOUT values, simple quantities of one quantity type in different units where 1.0 of the divisor's unit is
+    exactly 0 of the dividend's unit, failing because the operation raises although the Scalar quotient has a
+    quantity.  Everything else stays a violation."""
+    if (entry.get("matcher") or {}).get("class") != CLASS_PROBE or not failure or failure.get("class") != CLASS_PROBE:
+        return False
+    if case.get("op") != "binop":
+        return False
+    t = case["_t"]
+    a, b = t["a"], t["b"]
+    if t["f"] not in ("div", "floordiv") or a["t"] != "array" or b["t"] != "array":
+        return False
+    if a["xs"] or b["xs"] or "nd" in (a["kind"], b["kind"]):
+        return False
+
+    class _C:
+        pass
+
+    from barril.units.unit_database import UnitDatabase
+
+    c_ = _C()
+    c_.db = UnitDatabase.GetSingleton()
+    return _probe_zero(c_, a["q"], b["q"])
+
+
+def replay_finding(entry, ctx):
+    if (entry.get("matcher") or {}).get("class") != CLASS_PROBE:
+        return None
+    rc = entry.get("replay_case") or {}
+    q1 = [[c, u, int(e)] for c, u, e in rc.get("dividend", [["pressure", "Pa(g)", 1]])]
+    q2 = [[c, u, int(e)] for c, u, e in rc.get("divisor", [["pressure", "atm", 1]])]
+    f = {"/": "div", "//": "floordiv"}[rc.get("op", "/")]
+    c = oc.binop_case(f, oc.array_spec(q1, rc.get("kind1", "list"), []), oc.array_spec(q2, rc.get("kind2", "tuple"), []))
+    fl = oracle(c, ctx)
+    return fl if (fl and matches_known(entry, c, fl)) else None
 
 
 def search(ctx):
